@@ -159,6 +159,12 @@ Theorem C12_checker_breach_limit_size : forall P S k t r, ctx_frag P S = true ->
   check_limits (mutP (MLimitSize k) P S) (mutS (MLimitSize k) S) <> COk.
 Proof. exact checker_breach_limit_size. Qed.
 
+(* finding C12-F20 (new): the shift of a tour is found BY TIME, shiftIndex is never read - with two shifts of a vehicle that overlap
+   in time a valid document is rejected (tour size counted with the other shift's end); this is what ctx_frag excludes *)
+Theorem C12_checker_shift_by_time_refuted : exists P S,
+  valid_b P S = [] /\ ctx_frag P S = false /\ check_limits P S = CErr [[ETourSize]].
+Proof. exact checker_shift_by_time_refuted. Qed.
+
 (* ---- (c) checker/routing.rs *)
 (* sound and complete for the rule as it is written, at the level it talks about (stops): the model accepts exactly the
    documents that satisfy RoutingRule with tolerance 1 (Model/Checker.v: every leg's arrival and cumulative distance against the RAW
